@@ -903,6 +903,16 @@ class TextXMetaMetaModel:
             )
         return self._metamodel
 
+    def __getitem__(self, name):
+        """
+        Returns the class of the textX language itself with the given name,
+        e.g. when a grammar references the `textx` language.
+        """
+        return self.metamodel[name]
+
+    def __contains__(self, name):
+        return name in self.metamodel
+
     def model_from_str(self, model_str, debug=None, **kwargs):
         """
         Instantiates meta-model (a.k.a. textX model) from the given string.
